@@ -2735,8 +2735,17 @@ GRwriteimage(int32 riid, int32 start[2], int32 in_stride[2], int32 count[2], voi
            An element that is there but whose length cannot be obtained is an error, not a new image. */
         int32 img_len = Hlength(ri_ptr->gr_ptr->hdf_file_id, ri_ptr->img_tag, ri_ptr->img_ref);
 
-        if (img_len == FAIL && Hexist(ri_ptr->gr_ptr->hdf_file_id, ri_ptr->img_tag, ri_ptr->img_ref) == SUCCEED)
-            HGOTO_ERROR(DFE_INTERNAL, FAIL);
+        if (img_len == FAIL) {
+            /* A descriptor without data (offset and length still INVALID_OFFSET / INVALID_LENGTH: the image was
+               created in an earlier session and never written) also gives -1: that is a new image. */
+            uint16 found_tag = 0, found_ref = 0;
+            int32  found_off = INVALID_OFFSET, found_len = INVALID_LENGTH;
+
+            if (Hfind(ri_ptr->gr_ptr->hdf_file_id, ri_ptr->img_tag, ri_ptr->img_ref, &found_tag, &found_ref, &found_off,
+                      &found_len, DF_FORWARD) == SUCCEED &&
+                found_off != INVALID_OFFSET)
+                HGOTO_ERROR(DFE_INTERNAL, FAIL);
+        }
         if (img_len > 0)
             new_image = FALSE;
         else
